@@ -247,6 +247,27 @@ func RunOne(w *World, tape *sim.Tape, focus string, tier string, trace bool) (re
 	return res
 }
 
+// Hung is set once a run has failed to return; no further run may be started in this process.
+var Hung bool
+
+// HangLimit is the wall-clock time after which a single run is declared not to return.
+var HangLimit = 40 * time.Second
+
+// RunOneGuarded is RunOne with a wall-clock guard: a library call that neither returns nor reaches
+// a synchronisation operation, a comparator, an instrumented source or a harness adaptor cannot be
+// interrupted, but it can be noticed. The stuck goroutine is abandoned; the caller must end the
+// process soon. ok=false means the run did not finish.
+func RunOneGuarded(w *World, tape *sim.Tape, focus string, tier string, trace bool) (res *Result, ok bool) {
+	done := make(chan *Result, 1)
+	go func() { done <- RunOne(w, tape, focus, tier, trace) }()
+	select {
+	case res = <-done:
+		return res, true
+	case <-time.After(HangLimit):
+		return nil, false
+	}
+}
+
 // panicSig extracts a stable short signature from a panic report.
 func panicSig(p string) string {
 	// "panic in T3(name) at site: message\nstack"
@@ -276,12 +297,20 @@ func stuckSig(report []string) string {
 func Minimise(w *World, focus, tier string, vals []int, want *Violation, budget time.Duration, maxExec int) ([]int, int) {
 	deadline := time.Now().Add(budget)
 	execs := 0
+	expired := func() bool { return Hung || execs >= maxExec || time.Now().After(deadline) }
 	same := func(cand []int) bool {
 		if execs >= maxExec || time.Now().After(deadline) {
 			return false
 		}
 		execs++
-		res := RunOne(w, sim.NewReplayTape(cand), focus, tier, false)
+		if Hung {
+			return false
+		}
+		res, finished := RunOneGuarded(w, sim.NewReplayTape(cand), focus, tier, false)
+		if !finished {
+			Hung = true // the process must wind down: a goroutine is stuck inside the library
+			return false
+		}
 		return res.Viol != nil && res.Viol.Prop == want.Prop && res.Viol.Sig == want.Sig
 	}
 	best := append([]int(nil), vals...)
@@ -294,11 +323,11 @@ func Minimise(w *World, focus, tier string, vals []int, want *Violation, budget 
 	}
 	best = trim(best)
 	improved := true
-	for improved && execs < maxExec && time.Now().Before(deadline) {
+	for improved && !expired() {
 		improved = false
 		// 1. truncate the tail (binary search on length)
 		for cut := len(best) / 2; cut >= 1; cut /= 2 {
-			for len(best) > cut {
+			for len(best) > cut && !expired() {
 				cand := trim(append([]int(nil), best[:len(best)-cut]...))
 				if same(cand) {
 					best = cand
@@ -314,7 +343,7 @@ func Minimise(w *World, focus, tier string, vals []int, want *Violation, budget 
 			start = 8
 		}
 		for size := start; size >= 1; size /= 2 {
-			for i := 0; i+size <= len(best); {
+			for i := 0; i+size <= len(best) && !expired(); {
 				cand := append(append([]int(nil), best[:i]...), best[i+size:]...)
 				cand = trim(cand)
 				if same(cand) {
@@ -327,7 +356,7 @@ func Minimise(w *World, focus, tier string, vals []int, want *Violation, budget 
 		}
 		// 3. zero blocks
 		for size := 8; size >= 1; size /= 2 {
-			for i := 0; i+size <= len(best); i += size {
+			for i := 0; i+size <= len(best) && !expired(); i += size {
 				allZero := true
 				for _, v := range best[i : i+size] {
 					if v != 0 {
@@ -349,8 +378,8 @@ func Minimise(w *World, focus, tier string, vals []int, want *Violation, budget 
 			}
 		}
 		// 4. lower single values
-		for i := 0; i < len(best); i++ {
-			for best[i] > 0 {
+		for i := 0; i < len(best) && !expired(); i++ {
+			for best[i] > 0 && !expired() {
 				cand := append([]int(nil), best...)
 				if cand[i] > 1 && cand[i]/2 != cand[i] {
 					cand[i] = cand[i] / 2
